@@ -481,8 +481,8 @@ def tie_terms(cells, accepted):
 
 TIE_TYPE = "form * cty * cty * bool"
 import os as _os
-# C05_MODEL=declfix: the tree with seeded/_proposed_fixes/C05_decl_trial_assign.diff applied
-ASSIGN_OK = "assign_ok_declfix" if _os.environ.get("C05_MODEL") == "declfix" else "assign_ok"
+# default: the tree with fix 77e5120 (declarations checked like assignments); C05_MODEL=predeclfix: the model of the tree before it
+ASSIGN_OK = "assign_ok" if _os.environ.get("C05_MODEL") == "predeclfix" else "assign_ok_declfix"
 TIE_PRED = "fun c => match c with (f, s, t, a) => Bool.eqb (%s f s t) a end" % ASSIGN_OK
 DOC_PRED = "fun c => match c with (f, s, t, a) => Bool.eqb (doc_ok s t) a end"
 
